@@ -19,8 +19,9 @@ CONSTANTS N,        \* length of the call sequence
 KMAX == 2
 \* ("bare": one answer and the end, like [n |-> 1, then |-> "end"], from a query that calls no procedure and binds nothing - a cut -,
 \*  so that the answer's substitution is the empty one, which the implementation represents by a nil pointer)
-AllKinds == { [n |-> n, then |-> th] : n \in 0..KMAX, th \in {"end", "error"} } \cup { [n |-> 0, then |-> "inf"], [n |-> 1, then |-> "bare"] }
-FewKinds == { [n |-> 2, then |-> "end"], [n |-> 1, then |-> "error"], [n |-> 0, then |-> "inf"], [n |-> 1, then |-> "bare"] }
+\* ("anon": n answers and the end, from a query without a named variable - a yes/no question that has several proofs)
+AllKinds == { [n |-> n, then |-> th] : n \in 0..KMAX, th \in {"end", "error"} } \cup { [n |-> 0, then |-> "inf"], [n |-> 1, then |-> "bare"], [n |-> 2, then |-> "anon"] }
+FewKinds == { [n |-> 2, then |-> "end"], [n |-> 1, then |-> "error"], [n |-> 0, then |-> "inf"], [n |-> 1, then |-> "bare"], [n |-> 2, then |-> "anon"] }
 Kinds == IF KINDSET = "all" THEN AllKinds ELSE FewKinds
 Its == 1..NI
 
